@@ -181,7 +181,7 @@ pub fn check(v: &View, vd: &mut Verdict) {
                 continue;
             }
             // in-flight client operations may still hold temporaries: only ticks produced after they all ended
-            let quiet = v.client_ops().filter(|o| o.actor == Some(t.actor) && o.begin < z).map(|o| o.end_or_max()).max().unwrap_or(0).max(z);
+            let quiet = v.quiet_after(t.actor, z);
             for (k, (s, time)) in t.created.iter().enumerate() {
                 if *s > quiet && quiet != u64::MAX {
                     if let Some(i) = v.invs.iter().find(|i| i.msg == MsgRef::Tick { timer: *id, n: k as u32 }) {
